@@ -717,7 +717,8 @@ func (in *inliner) newExpansion(fi *FuncInfo, cc *callCtx) (*expansion, string) 
 					return nil, "type of result " + n.Name + " cannot be spelled at the call site"
 				}
 				ex.resultVars = append(ex.resultVars, name)
-				ex.resultDecls = append(ex.resultDecls, fmt.Sprintf("var %s %s", name, ts))
+				// (a named result that no return reads would be "declared and not used" as a local)
+				ex.resultDecls = append(ex.resultDecls, fmt.Sprintf("var %s %s; _ = %s", name, ts, name))
 			}
 		}
 	}
@@ -2622,6 +2623,7 @@ func (in *inliner) planStmt(fi *FuncInfo, cc *callCtx) (func(), string) {
 	negated := false
 	tailReturn := false
 	tailRetText := ""
+	retPre, retSuf := "", "" // constant operands of the caller's return around the helper's value
 	var unify []types.Object // locals of the helper that become the variables the call site defines
 	var thread *threadPlan   // `x, ok := helper(); if !ok { return … }`: early returns of the helper go straight to the guard's body
 	switch pn := parent.(type) {
@@ -2675,8 +2677,33 @@ func (in *inliner) planStmt(fi *FuncInfo, cc *callCtx) (func(), string) {
 			}
 		}
 	case *ast.ReturnStmt:
+		retAt := 0
 		if len(pn.Results) != 1 {
-			return nil, "return with other operands"
+			// `return nil, helper(x)`: the other operands are constants (no evaluation to order), the helper gives one value
+			if nres != 1 {
+				return nil, "return with other operands"
+			}
+			retAt = -1
+			for i, res := range pn.Results {
+				if ast.Unparen(res) == ast.Expr(cc.call) {
+					retAt = i
+					continue
+				}
+				tv := cc.callInfo.Types[res]
+				if tv.Value == nil && !tv.IsNil() {
+					return nil, "return with other operands"
+				}
+			}
+			if retAt < 0 {
+				return nil, "return with other operands"
+			}
+			for i, res := range pn.Results {
+				if i < retAt {
+					retPre += in.text(res) + ", "
+				} else if i > retAt {
+					retSuf += ", " + in.text(res)
+				}
+			}
 		}
 		// the enclosing function (or literal) must return exactly what the helper returns
 		var rt *types.Signature
@@ -2688,13 +2715,15 @@ func (in *inliner) planStmt(fi *FuncInfo, cc *callCtx) (func(), string) {
 				rt = o.Type().(*types.Signature)
 			}
 		}
-		if rt == nil || rt.Results().Len() != nres {
+		if rt == nil || rt.Results().Len() != len(pn.Results)+nres-1 {
 			return nil, "return arity"
 		}
 		for i := 0; i < nres; i++ {
-			if !types.Identical(rt.Results().At(i).Type(), sig.Results().At(i).Type()) {
+			if !types.Identical(rt.Results().At(retAt+i).Type(), sig.Results().At(i).Type()) {
 				return nil, "return type differs"
 			}
+		}
+		for i := 0; i < rt.Results().Len(); i++ {
 			if rt.Results().At(i).Name() != "" {
 				return nil, "enclosing function has named results"
 			}
@@ -2961,7 +2990,7 @@ func (in *inliner) planStmt(fi *FuncInfo, cc *callCtx) (func(), string) {
 				case mAssign:
 					ed(r.Pos(), r.End(), "{ "+strings.Join(lhs, ", ")+" = "+vars+brk(r)+" }")
 				case mReturn:
-					ed(r.End(), r.End(), " "+vars)
+					ed(r.End(), r.End(), " "+retPre+vars+retSuf)
 				case mIf:
 					a, b := thenTxt, elseTxt
 					if negated {
@@ -3001,7 +3030,13 @@ func (in *inliner) planStmt(fi *FuncInfo, cc *callCtx) (func(), string) {
 				ed(r.Pos(), r.Pos()+token.Pos(len("return")), "{ "+strings.Join(lhs, ", ")+op)
 				ed(r.End(), r.End(), brk(r)+" }")
 			case mReturn:
-				// stays a return of the enclosing function
+				// stays a return of the enclosing function (with the caller's constant operands around it)
+				if retPre != "" {
+					ed(r.Pos()+token.Pos(len("return")), r.Pos()+token.Pos(len("return")), " "+retPre)
+				}
+				if retSuf != "" {
+					ed(r.End(), r.End(), retSuf)
+				}
 			case mIf:
 				val, isConst := boolConst(fi.Pkg.TypesInfo, r.Results[0])
 				sel := func(v bool) (string, bool) {
